@@ -249,7 +249,9 @@ def wellposed_sweep(chk, MX, n):
             continue
         # independent check of the equation on the public outputs for the scipy path as well
         R = np.array(sc._lifting_line_residual(np.array(sc._gamma, dtype=float)))
-        lim = 1e-6 if solver_type == "scipy_fsolve" else 10 * sc._solver_convergence
+        # scipy stops on its own relative step tolerance (xtol 1.49e-8): the residual it leaves scales with the size of the two balanced terms
+        bal = float(np.linalg.norm(2.0 * np.asarray(sc._w_i_mag) * np.asarray(sc._gamma)))
+        lim = 1e-6 * max(1.0, bal) if solver_type == "scipy_fsolve" else 10 * sc._solver_convergence
         if not (np.linalg.norm(R) <= max(lim, 1e-9 * np.max(np.abs(sc._gamma) + 1.0))):
             chk.violation("wellposed:residual:%s" % solver_type, dict(kind="wellposed", scene=sd, aircraft=ac, state=st, controls=cs,
                                                                       residual_norm=float(np.linalg.norm(R))))
